@@ -40,13 +40,21 @@ def main():
         rec["tests_with_change"] = t.stdout.strip()
         rec["ran"].append(f"cd {wt} && PYTHONPATH={wt}/perception_eval /venv/bin/python -m pytest -q -p no:cacheprovider perception_eval/test -> {t.stdout.strip()}")
         print("tests:", t.stdout.strip())
-    a = sh(f"git -C /repo apply {out}/patch.diff")
+    scratch = None
+    if "--scratch" in sys.argv:
+        # evaluate on a scratch copy (PYVC_REPO) instead of patching /repo: safe while other runs read /repo
+        import tempfile
+        scratch = tempfile.mkdtemp(prefix="pyvc-seed-", dir="/tmp")
+        shutil.copytree("/repo/perception_eval", os.path.join(scratch, "perception_eval"), ignore=shutil.ignore_patterns("__pycache__", "*.pyc", "test"))
+        a = sh(f"cd {scratch} && patch -p1 -s < {out}/patch.diff")
+    else:
+        a = sh(f"git -C /repo apply {out}/patch.diff")
     if a.returncode != 0:
         print("patch does not apply to /repo:", a.stderr)
         return 2
     try:
         t0 = time.time()
-        c = sh(f"{VERIF}/check {pid}", env=dict(os.environ, PYVC_EVIDENCE_DIR="/tmp/seeded-evidence"))
+        c = sh(f"{VERIF}/check {pid}", env=dict(os.environ, PYVC_EVIDENCE_DIR="/tmp/seeded-evidence", **({"PYVC_REPO": scratch} if scratch else {})))
         rec["check_rc"] = c.returncode
         rec["check_wall_s"] = round(time.time() - t0, 1)
         lines = c.stdout.strip().splitlines()
@@ -61,7 +69,10 @@ def main():
                     rec["replay_excerpt"] = open(rp).read()[:1500]
                 break
     finally:
-        sh("git -C /repo checkout -- .")
+        if scratch:
+            shutil.rmtree(scratch, ignore_errors=True)
+        else:
+            sh("git -C /repo checkout -- .")
     if "--keep-as" in sys.argv:
         sid = sys.argv[sys.argv.index("--keep-as") + 1]
         d = os.path.join(VERIF, "seeded", sid)
